@@ -142,6 +142,7 @@ func c12Once(c *mon.Ctx) {
 		c.V("count-mismatch", fmt.Sprintf("registry has %d lints, the lint tree has %d registration call sites", len(names), len(sites)), "", nil, nil)
 	}
 	c12Invariants(c, g, names, inReg, "default build")
+	c12Implementations(c, g)
 	c12UnderUse(c, g, names, inReg)
 	c.R.Sample(4, map[string]any{"census_sites": len(sites), "registry": len(names), "dirs": dirs, "first_sites": sites[:3]})
 }
@@ -704,4 +705,91 @@ func c12UnderUse(c *mon.Ctx, g lint.Registry, names []string, inReg map[string]b
 	c12Invariants(c, g, g.Names(), inReg, "default build after use")
 	c.R.Count("registry_uses", int64(uses))
 	c.R.Note("registry_use_instants", len(when))
+}
+
+// c12Implementations: "every lint defined in the source tree is present in the registry" also means its RULE BODY.
+// A second census lists, per lint package, the types that have both a CheckApplies and an Execute method in a
+// lint_*.go file - the lint implementations defined in the tree. Each of them must be the dynamic type of what some
+// registered constructor returns; a type that no registered lint instantiates is a lint that is defined but
+// unreachable (its name may well be registered - with another lint's body behind it).
+func c12Implementations(c *mon.Ctx, g lint.Registry) {
+	root := filepath.Join(c.Repo, "v3", "lints")
+	fset := token.NewFileSet()
+	type methods struct{ applies, execute bool }
+	defined := map[string]*methods{} // "<package dir>.<Type>"
+	where := map[string]string{}
+	_ = filepath.Walk(root, func(p string, info os.FileInfo, err error) error {
+		if err != nil || info.IsDir() || !strings.HasSuffix(p, ".go") || strings.HasSuffix(p, "_test.go") || !strings.HasPrefix(filepath.Base(p), "lint_") {
+			return nil
+		}
+		f, err := parser.ParseFile(fset, p, nil, 0)
+		if err != nil {
+			return nil
+		}
+		for _, d := range f.Decls {
+			fd, ok := d.(*ast.FuncDecl)
+			if !ok || fd.Recv == nil || len(fd.Recv.List) != 1 || (fd.Name.Name != "Execute" && fd.Name.Name != "CheckApplies") {
+				continue
+			}
+			t := fd.Recv.List[0].Type
+			if st, ok := t.(*ast.StarExpr); ok {
+				t = st.X
+			}
+			id, ok := t.(*ast.Ident)
+			if !ok {
+				continue
+			}
+			key := filepath.Base(filepath.Dir(p)) + "." + id.Name
+			if defined[key] == nil {
+				defined[key] = &methods{}
+				where[key] = strings.TrimPrefix(p, c.Repo+"/")
+			}
+			if fd.Name.Name == "Execute" {
+				defined[key].execute = true
+			} else {
+				defined[key].applies = true
+			}
+		}
+		return nil
+	})
+	live := map[string][]string{}
+	note := func(name string, inst any) {
+		t := reflect.TypeOf(inst)
+		for t != nil && t.Kind() == reflect.Ptr {
+			t = t.Elem()
+		}
+		if t == nil {
+			return
+		}
+		key := filepath.Base(t.PkgPath()) + "." + t.Name()
+		live[key] = append(live[key], name)
+	}
+	for _, l := range g.CertificateLints().Lints() {
+		note(l.Name, l.Lint())
+	}
+	for _, l := range g.RevocationListLints().Lints() {
+		note(l.Name, l.Lint())
+	}
+	for _, l := range g.OcspResponseLints().Lints() {
+		note(l.Name, l.Lint())
+	}
+	n := 0
+	for key, m := range defined {
+		if !m.execute || !m.applies {
+			continue
+		}
+		n++
+		c.R.Count("evaluations", 1)
+		if len(live[key]) == 0 {
+			c.V("implementation-not-reachable|"+key, fmt.Sprintf("the lint implementation %s (CheckApplies + Execute, defined in %s) is not what any registered lint's constructor returns: it is defined in the tree but unreachable through the registry", key, where[key]), "", nil, nil)
+		}
+	}
+	shared := 0
+	for _, names := range live {
+		if len(names) > 1 {
+			shared++
+		}
+	}
+	c.R.Note("lint_implementation_types_defined", n)
+	c.R.Note("lint_implementation_types_shared_by_several_names", shared)
 }
